@@ -816,6 +816,7 @@ Lemma oofs_finalize_pres : forall other, pres (oofs_finalize other).
 Proof.
   intros other s [HK HU HF]. unfold oofs_finalize.
   destruct (find_oofs other s) as [o|]; [|split; [eapply view_eq_Inv; [apply view_panic|constructor; assumption]|intros; apply view_eq_Phi; apply view_panic]].
+  destruct (of_live o); [|split; [eapply view_eq_Inv; [apply view_panic|constructor; assumption]|intros; apply view_eq_Phi; apply view_panic]].
   set (f := fun o0 : oofs => mkOofs (of_other o0) (of_seq o0) (of_client o0) (of_owner o0) (of_handle o0) (of_sa o0) (of_rd o0) (of_wr o0) false).
   set (s1 := upd_oofs other f s).
   assert (Ho : st_oofs s1 = upd_at other f (st_oofs s)) by (apply upd_oofs_at; assumption).
@@ -1452,6 +1453,7 @@ Qed.
 Lemma psame_oofs_finalize : forall other, psame (oofs_finalize other).
 Proof.
   intros other s. unfold oofs_finalize. destruct (find_oofs other s); [|reflexivity].
+  destruct (of_live o); [|reflexivity].
   unfold gc_oofs. simpl. rewrite (psame_view _ (view_pool_close (of_handle o))). reflexivity.
 Qed.
 
